@@ -59,4 +59,88 @@ CLAIMS = {
     technique="Lean 4 proof (run semantics + read-only frame) + differential correspondence"),
 }
 
+CLAIMS.update({
+ "C02": dict(
+    text="Theorems (Props/C02, from the demonic wp `wpD` of the whole write): whenever a write answers ok - healthy run and "
+         "every fault plan - the answer is the digest of all bytes fed (declared integrity for keyed writers), the "
+         "content path exists, the store is valid, and the key's bucket is the old bytes plus the whole new record with "
+         "that integrity and byte count; reading that state back by address and by key yields exactly the data (given the "
+         "codec laws, a non-colliding digest on the two strings involved, a settled bucket). Correspondence: all write "
+         "entry points x sizes x chunkings x algorithms against the model, hashlib monitor on addresses and read-back.",
+    note=TB + "`_partial`: that a healthy run DOES answer ok on every healthy filesystem is exercised by the correspondence "
+         "only; Codec.Laws for the serde/SHA-256 codec (JSON round trip) is a hypothesis of read_back_by_key, validated by "
+         "the C11/C17 correspondence.",
+    technique="Lean 4 proof (demonic weakest precondition over filesystem calls) + differential correspondence"),
+ "C03": dict(
+    text="Theorems (Props/C03): ContentValid (every regular file at a content address hashes to it, for an arbitrary "
+         "digest function) is preserved by every write program - every entry point, chunking, declared size, flavour - at "
+         "EVERY kill point with the in-flight call torn at ANY byte (Prog.crash n t, all n t), after completion and under "
+         "every fault plan; only the rename of a temp file whose bytes are exactly what was hashed can create a content "
+         "file. Tie: real mutation-syscall skeleton = model call trace per op (strace), real SIGKILL at every mutating "
+         "syscall followed by inspection with a fresh process, hashlib monitor on dumped content.",
+    note=TB + "kernel assumptions: rename(2) atomic, a failed/short write to the temp file is followed by an error "
+         "(execFail), page cache survives a process kill (power loss not modelled); strace's kill lands on syscall entry "
+         "of the main thread (sync API).",
+    technique="Lean 4 proof (invariant at every crash cut via wpD) + syscall-skeleton correspondence + real kill sweeps"),
+ "C04": dict(
+    text="Theorems (Props/C04): killed at any call of a keyed write / index insert / removal, with the append torn at any "
+         "byte (or failing after any partial write), the key's bucket is the old bytes plus a PREFIX of the one new "
+         "frame and the content store is valid; for any such prefix every reader decodes exactly the old records or "
+         "exactly old+new (never a mixture), other keys are found as before, and after any continuation history the torn "
+         "bytes are inert; phases before the index insert never aim at the index area (content first). Tie: torn-append "
+         "buckets at sampled byte lengths incl. multi-byte UTF-8 via the reference encoder, real SIGKILL sweeps with "
+         "old-or-new / other-keys / visible=>readable / later-write monitors.",
+    note=TB + "TornLaws.prefix_none (a strict prefix of a record line does not decode) is a hypothesis: it needs SHA-256 "
+         "not to collide on {json, prefix of json}; Settled b0 holds for every bucket the library produced.",
+    technique="Lean 4 proof (wpD at every crash cut + line-reader algebra) + real kill sweeps"),
+ "C07": dict(
+    text="Theorems (Props/C07, Prog.interleave: any number of processes, any schedule, calls atomic): every bucket is at "
+         "all times its initial bytes followed by WHOLE framed records in append order - for any mix of index inserts, "
+         "removals, lookups, listings, content removals and writer phases - so no reader decodes a partial or spliced "
+         "record and no append is lost; non-publishing operations keep the content store valid; every call stays inside "
+         "the cache. Tie: 6-12 real processes (sync+async API, both runtimes) hammering one cache with read/record/content "
+         "monitors; strace check that an index insert is ONE write(2) on an O_APPEND descriptor (also multi-MiB).",
+    note=TB + "`_partial`: ContentValid under concurrent PUBLISHING writers needs a rely/guarantee argument about private "
+         "temp files; proved for one writer against all crashes/faults, validated for concurrent writers by the stress leg. "
+         "Kernel atomicity of write(O_APPEND) and rename is assumed. Full serializability of 3+ operations is not proved.",
+    technique="Lean 4 proof (invariants over all interleavings) + multi-process stress + syscall skeleton"),
+ "C08": dict(
+    text="Theorems (Props/C08): the decision logic of commit stated outright (integrity mismatch => integrity error, "
+         "checked before size; size mismatch => size error carrying (wanted, actual); matching => ok recording the declared "
+         "integrity); the phases up to the checks never aim at the index area and the index insertion never returns an "
+         "integrity/size error, hence for EVERY state a commit that reports either error left every index path untouched. "
+         "Correspondence: prior state x declared size {none,=,<,>} x declared integrity {none, ok, wrong, other algo, "
+         "multi-hash} x chunking x flavour x keyed/by-address.",
+    note=TB + "the returned integrity of a by-address commit is the computed one even if one was declared (as in the code).",
+    technique="Lean 4 proof (decision logic + AllCalls area analysis + run semantics) + differential correspondence"),
+ "C13": dict(
+    text="Theorems (Props/C13, Prog.runFault over EVERY fault plan - any positions, any number, any error kind, partial "
+         "writes): content store valid afterwards; the key's bucket is old bytes + at most a prefix of the new record "
+         "(whole on success); an ok answer implies the content path exists and the record is appended whole (no false "
+         "success); a read that answers ok passes the integrity check; a writer that never reaches the index phase leaves "
+         "the index untouched; every call stays inside the cache. Tie: strace errno injection into every syscall class of "
+         "write/read/metadata/copy/remove/list with result, post-state, retry and other-entry monitors.",
+    note=TB + "retry-succeeds and no-panic are judged by the injection leg (impl-only monitor), not proved; the model's "
+         "fault granularity is one model call = a group of syscalls.",
+    technique="Lean 4 proof (demonic wp over all fault plans) + strace errno injection"),
+ "C14": dict(
+    text="Theorems (Props/C14): a writer that is opened, fed any chunks and dropped can only ever aim at the temp area - "
+         "whatever the calls answer - so every index and content path is unchanged in the healthy run, at every kill "
+         "point and under every fault plan; drop removes the temp file; the index area is aimed at only by the index phase "
+         "of a commit that passed its checks (C08). Correspondence: writers dropped after 0..all chunks (sync/async, "
+         "mapped/plain), rejected commits, listing/lookup/temp area afterwards.",
+    note=TB + "the async drop order / detached blocking task that removes the temp file is runtime behaviour: the harness "
+         "polls until the temp file is gone (deadline 30 s).",
+    technique="Lean 4 proof (AllCalls area analysis + frame lemmas) + differential correspondence"),
+ "C16": dict(
+    text="Theorems (Props/C16): whenever a write without declared integrity answers ok (healthy or under any faults) the "
+         "address is [algo, base64(H algo data)] for the concatenation of the chunks - independent of key, chunking, entry "
+         "point, flavour and prior state; in a valid store whatever sits at an address has that digest, republishing equal "
+         "bytes leaves the copy byte-identical; content paths of different algorithms are disjoint and an address "
+         "determines (algorithm, digest). 'Standard digest' is the correspondence claim: returned integrity vs hashlib.",
+    note=TB + "SHA-1/256/384/512 are compared with hashlib and with the Lean implementation; XXH3 has no independent "
+         "implementation here and is exercised through the library only.",
+    technique="Lean 4 proof (wpD postcondition + path injectivity) + differential correspondence against hashlib"),
+})
+
 PENDING = {}
